@@ -18,7 +18,7 @@ Classes == {"der_ok", "der_bad", "der_len_long_form", "der_indefinite", "der_lea
             "cmp_ok", "cmp_bad_len", "cmp_zero", "cmp_ge_n", "cmpv_ok",
             "bip_ok", "bip_len_edge", "bip_bad", "bip_but_not_der", "bip_neg", "bip_padding",
             "spki_ok_unc", "spki_ok_cmp", "spki_unused_bits", "spki_unused_bits_zero_pad", "spki_bad_oid", "spki_trailing",
-            "spki_bad_point", "spki_identity", "spki_params", "spki_bad", "random_bytes"}
+            "spki_bad_point", "spki_identity", "spki_params", "spki_bad", "random_bytes", "model_sig_shape", "model_spki_shape"}
 
 DerClasses(b, d) ==
   (IF d[1] = "ok" THEN {"der_ok"} ELSE {"der_bad"})
@@ -43,7 +43,8 @@ Verdict(ev) ==
          << ~ev.panic
             /\ IF d[1] = "ok" THEN ev.ok /\ IntIsHex(d[2], W, ev.r) /\ IntIsHex(d[3], W, ev.s) /\ ev.rebuilt = ev["in"]   \* parse-then-build
                               ELSE ~ev.ok,
-            DerClasses(b, d) \cup (IF Has(ev, "random") /\ ev.random THEN {"random_bytes"} ELSE {}) >>
+            DerClasses(b, d) \cup (IF Has(ev, "random") /\ ev.random THEN {"random_bytes"} ELSE {})
+            \cup (IF Has(ev, "cls") THEN {ev.cls} ELSE {}) >>
     [] ev.ev = "der.Build" ->
          LET r == H(ev.r)  s == H(ev.s)  want == BuildDerSig(r, s) IN
          << HB(ev.out) = want /\ ParseDerSig(want) = <<"ok", r, s>> /\ ev.reparsed,                                        \* build-then-parse
@@ -72,6 +73,7 @@ Verdict(ev) ==
             /\ IF d[1] = "ok" THEN /\ ev.ok /\ ev.unc = EncUncompressedH(d[2])
                                    /\ HB(ev.rebuilt) = BuildSpki(EncUncompressedB(d[2]))
                                    /\ (Len(b) = Len(BuildSpki(EncUncompressedB(d[2]))) => ev.rebuilt = ev["in"])   \* re-encoding an uncompressed key reproduces the input
+                                   /\ (Has(ev, "unc2") => ev.unc2 = ev.unc /\ ev.reb2 = ev.rebuilt /\ ev.pt2 = ev.unc)  \* ... and the key does not move when the caller reuses its buffers
                               ELSE ~ev.ok,
             (IF d[1] = "ok" THEN (IF Len(b) < 60 THEN {"spki_ok_cmp"} ELSE {"spki_ok_unc"}) ELSE {"spki_bad"})
             \cup (IF Has(ev, "cls") THEN {ev.cls} ELSE {}) >>
